@@ -96,6 +96,7 @@ func genSpecials() []descCase {
 		{"interface a.b\nmethod A() -> ()\nmethod B(a: int) -> ()\nmethod C() -> (a: int)\nmethod D(a: int) -> (a: int)\nerror A1\nerror B1 (a: int)\ntype A2 (a: int)\n", "multi-member"},
 		{"interface a.b\nmethod M(a: (b: (c: (d: (e: (f: int)))))) -> (a: [][][]?[][string]?int)\n", "deep"},
 		{"interface a.b\nmethod M(e: (a, b, c), f: ?(x, y), g: [](one)) -> (e: (a, b))\nerror E (e: (a, b))\ntype En (a, b, c)\n", "enum-field"},
+		{"interface a.b\ntype O object\nmethod M(o: O, m: [string]O, d: object) -> (o: O, l: []O)\nerror E (o: O)\n", "obj-alias"},
 		{"interface var.link\nmethod M() -> ()\n", "pkg-varlink"},
 		{"interface con.text\nmethod M(o: object) -> ()\nerror E (a: int)\n", "pkg-context"},
 		{"interface js.on\nmethod M(o: object) -> ()\nerror E (a: int)\n", "pkg-json"},
@@ -199,7 +200,7 @@ func genSystematicCases() []descCase {
 
 var genIfaceNames = []string{
 	"org.example.test", "com.Example-x.foo", "a.b", "A.B-c.d9", "io.systemd.Resolve", "org.varlink.certification",
-	"x.y.z", "xn--lgbbat1ad8j.example.algeria", "a.b-c-d", "Ab.Cd.Ef", "org.example.more9", "z9.a0",
+	"x.y.z", "xn--lgbbat1ad8j.example.algeria", "a.b-c-d", "Ab.Cd.Ef", "org.example.more9", "z.a0",
 }
 var genMemberNames = []string{
 	"Foo", "Bar", "Baz", "T", "U", "V", "Ping", "GetInfo", "A1", "Zz9", "Item", "State", "Monitor", "Start", "End",
